@@ -1497,3 +1497,141 @@ var ruleLocAsciiAdvance = &Rule{
 		return obs
 	},
 }
+
+// ---------------------------------------------------------------------------------------------
+// LOC/line-only-skip: a scan over located elements does not skip or stop on a line-only test when the lines are equal
+
+var ruleLocLineOnlySkip = &Rule{
+	Name:    "LOC/line-only-skip",
+	NeedSSA: true,
+	Text: "a position is a (line, column) pair. In a loop over located elements (scopes, symbols), a branch that is decided by an ordering comparison of an element's " +
+		"Location line field (StartLine / EndLine) with a line value that is not itself a Location field — the cursor line — and that either skips the element " +
+		"(goes on to the next iteration) or leaves the loop is not taken when the two lines are equal: on the cursor's own line only the columns can tell whether " +
+		"the element lies before, around or after the cursor, so `StartLine >= line → break` hides every later element that starts on that line " +
+		"(two blocks on one source line: the second one's locals are never found)",
+	Run: func(c *Ctx) []Ob {
+		var obs []Ob
+		n := 0
+		lineField := func(v ssa.Value) (string, bool) {
+			ld, ok := v.(*ssa.UnOp)
+			if !ok || ld.Op != token.MUL {
+				return "", false
+			}
+			fa, ok := ld.X.(*ssa.FieldAddr)
+			if !ok || !isLocationType(types.Unalias(fa.X.Type()).Underlying().(*types.Pointer).Elem()) {
+				return "", false
+			}
+			nm := fieldName(fa.X.Type(), fa.Field)
+			return nm, nm == "StartLine" || nm == "EndLine"
+		}
+		for _, f := range c.ModFns() {
+			if f.Blocks == nil {
+				continue
+			}
+			loops := allLoops(f)
+			if len(loops) == 0 {
+				continue
+			}
+			ord := 0
+			for _, b := range f.Blocks {
+				iff, ok := b.Instrs[len(b.Instrs)-1].(*ssa.If)
+				if !ok {
+					continue
+				}
+				bo, ok := iff.Cond.(*ssa.BinOp)
+				if !ok {
+					continue
+				}
+				switch bo.Op {
+				case token.LSS, token.GTR, token.LEQ, token.GEQ:
+				default:
+					continue
+				}
+				fx, isX := lineField(bo.X)
+				fy, isY := lineField(bo.Y)
+				if isX == isY {
+					continue // no Location line, or two Locations compared with each other
+				}
+				// the other side must be a plain int that is not read from a Location
+				other := bo.Y
+				fname := fx
+				if isY {
+					other, fname = bo.X, fy
+				}
+				if ld, ok := other.(*ssa.UnOp); ok && ld.Op == token.MUL {
+					if fa, ok := ld.X.(*ssa.FieldAddr); ok {
+						if pt, ok := types.Unalias(fa.X.Type()).Underlying().(*types.Pointer); ok && isLocationType(pt.Elem()) {
+							continue
+						}
+					}
+				}
+				// innermost loop containing the branch
+				var in *loopInfo
+				for i := range loops {
+					l := &loops[i]
+					if l.body[b] && (in == nil || len(l.body) < len(in.body)) {
+						in = l
+					}
+				}
+				if in == nil {
+					continue
+				}
+				// which successor is taken when the lines are equal?
+				eqTaken := 1
+				if bo.Op == token.LEQ || bo.Op == token.GEQ {
+					eqTaken = 0
+				}
+				classify := func(tgt *ssa.BasicBlock) string {
+					switch {
+					case !in.body[tgt] && tgt != in.header:
+						return "exit"
+					case tgt == in.header:
+						return "skip"
+					case len(tgt.Instrs) == 1 && len(tgt.Succs) == 1 && tgt.Succs[0] == in.header:
+						return "skip"
+					case isRangeLatch(tgt, in):
+						return "skip"
+					}
+					return "examine"
+				}
+				eqK, otherK := classify(b.Succs[eqTaken]), classify(b.Succs[1-eqTaken])
+				n++
+				ord++
+				key := fmt.Sprintf("LOC/line-only-skip:%s:%s#%d", fnKey(f), fname, ord)
+				switch {
+				case eqK == "exit":
+					obs = append(obs, Ob{Key: key, Site: c.Pos(bo.Pos()), Verdict: VIOLATION,
+						Note: fmt.Sprintf("when the element's %s equals the cursor line the scan stops: later elements that start on the same line are never looked at", fname)})
+				case eqK == "skip" && otherK == "examine":
+					obs = append(obs, Ob{Key: key, Site: c.Pos(bo.Pos()), Verdict: VIOLATION,
+						Note: fmt.Sprintf("when the element's %s equals the cursor line the element is skipped without a look at the columns", fname)})
+				default:
+					obs = append(obs, Ob{Key: key, Site: c.Pos(bo.Pos()), Verdict: OK, Note: "on equal lines the scan goes on / the element is examined (" + eqK + ")"})
+				}
+			}
+		}
+		obs = append(obs, floor("LOC/line-only-skip", "line-only comparisons of element locations inside scans", n, 7))
+		return obs
+	},
+}
+
+// isRangeLatch: block b only advances the loop (jumps to the header, possibly through the index increment block)
+func isRangeLatch(b *ssa.BasicBlock, l *loopInfo) bool {
+	for steps := 0; steps < 3 && b != nil; steps++ {
+		if b == l.header {
+			return true
+		}
+		for _, ins := range b.Instrs {
+			switch ins.(type) {
+			case *ssa.Jump, *ssa.BinOp, *ssa.Phi:
+			default:
+				return false
+			}
+		}
+		if len(b.Succs) != 1 {
+			return false
+		}
+		b = b.Succs[0]
+	}
+	return false
+}
